@@ -401,7 +401,7 @@ func genPair(rt *rapid.T) pair {
 				f.Decls = append(f.Decls, d)
 				for _, tn := range names {
 					for mi := 0; mi < rapid.IntRange(0, 3).Draw(rt, "nmeth"); mi++ {
-						m := spec{Name: fmt.Sprintf("m%d", mi), Recv: tn, RecvPtr: rapid.Bool().Draw(rt, "ptr"), Sig: rapid.SampledFrom(sigs).Draw(rt, "msig"), Body: nextFP("o")}
+						m := spec{Name: methodName(mi), Recv: tn, RecvPtr: rapid.Bool().Draw(rt, "ptr"), Sig: rapid.SampledFrom(sigs).Draw(rt, "msig"), Body: nextFP("o")}
 						if sym.generic[tn] {
 							m.RecvArgs = "[X]"
 						}
@@ -542,7 +542,7 @@ func genPair(rt *rapid.T) pair {
 					continue
 				}
 				tn := rapid.SampledFrom(sym.types).Draw(rt, "omt")
-				mn := fmt.Sprintf("m%d", rapid.IntRange(0, 3).Draw(rt, "omn"))
+				mn := methodName(rapid.IntRange(0, 3).Draw(rt, "omn"))
 				if takenM[tn+"."+mn] || takenT[tn] {
 					continue
 				}
@@ -657,4 +657,13 @@ func genPair(rt *rapid.T) pair {
 		p.Over = append(p.Over, f)
 	}
 	return p
+}
+
+// methodName: the third method of a type is called init - a legal method name that must not be
+// confused with the package-level init functions (which are never overridden).
+func methodName(i int) string {
+	if i == 2 {
+		return "init"
+	}
+	return fmt.Sprintf("m%d", i)
 }
